@@ -8,7 +8,7 @@
    and list lengths. *)
 From PM.theories Require Import Base Struct PduCls PduSpec Pdu CorrPdu.
 From PM.Generated Require Import GenPdu.
-From PM.proofs Require Import Pdu_proofs Pdu_more_proofs Pdu_dec_proofs Pdu_c02_proofs.
+From PM.proofs Require Import Pdu_proofs Pdu_more_proofs Pdu_dec_proofs Pdu_dec2_proofs Pdu_c02_proofs.
 Open Scope string_scope.
 Open Scope list_scope.
 Open Scope Z_scope.
